@@ -15,6 +15,7 @@ pub mod shapes;
 pub mod shared;
 pub mod steps;
 pub mod tracked;
+pub mod variants;
 
 use std::sync::atomic::{AtomicBool, Ordering};
 
